@@ -376,6 +376,45 @@ def assert_nodup(repo):
     return inserts, recurses
 
 
+def generation_counter(repo):
+    """The per-slot generation counter (C02): its width in the slot and in the identifier, its start
+    value and how a reuse bumps it.  Anything but `wrapping_add(1)` on the slot's own field, or a
+    cast between the two, is a shape this extractor does not understand."""
+    rel = "entity/allocator/slot.rs"
+    raw = strip_comments(read(repo, rel))
+    t = " ".join(raw.split())
+    m = re.search(r"pub\(crate\) struct Slot<R>.*?\{ pub\(crate\) generation: (u(\d+)|usize), ", t)
+    if not m:
+        err("slot.rs: `generation` field of Slot not found in the expected shape")
+        return 0, 0, 0, 0
+    slot_bits = 64 if m.group(1) == "usize" else int(m.group(2))
+    m0 = re.search(r"fn new\(location: Location<R>\) -> Self \{ Self \{ generation: (\d+), location: Some\(location\), \} \}", t)
+    if not m0:
+        err("slot.rs: Slot::new does not have the shape `Self { generation: <literal>, location: Some(location) }`")
+    start = int(m0.group(1)) if m0 else 0
+    bumps = re.findall(r"self\.generation = ([^;]*);|self\.generation (\+=|-=) ([^;]*);", t)
+    mb = re.search(r"unsafe fn activate_unchecked\(&mut self, location: Location<R>\) \{ self\.generation = self\.generation\.wrapping_add\((\d+)\); self\.location = Some\(location\); \}", t)
+    if not mb or len(bumps) != 1:
+        err("slot.rs: the generation is not bumped by exactly one `self.generation = self.generation.wrapping_add(<n>)` in activate_unchecked (%d assignments found)" % len(bumps))
+    step = int(mb.group(1)) if mb else 0
+    item("generationCounter", rel, lineno(raw, raw.find("generation:")), "Slot.generation / Slot::new / activate_unchecked", {"slot_bits": slot_bits, "start": start, "wrapping_add": step})
+    rel2 = "entity/identifier/mod.rs"
+    raw2 = strip_comments(read(repo, rel2))
+    t2 = " ".join(raw2.split())
+    m2 = re.search(r"pub struct Identifier \{ pub\(crate\) index: usize, pub\(crate\) generation: (u(\d+)|usize), \}", t2)
+    if not m2:
+        err("identifier/mod.rs: `generation` field of entity::Identifier not found in the expected shape")
+        return slot_bits, 0, start, step
+    id_bits = 64 if m2.group(1) == "usize" else int(m2.group(2))
+    item("generationCounter", rel2, lineno(raw2, raw2.find("generation:")), "entity::Identifier.generation", {"identifier_bits": id_bits})
+    # a cast of a generation anywhere in the allocator would make the two widths differ in effect
+    for rel3 in ("entity/allocator/mod.rs", "entity/allocator/slot.rs", "entity/allocator/impl_serde.rs", "entity/identifier/mod.rs"):
+        t3 = " ".join(strip_comments(read(repo, rel3)).split())
+        if re.search(r"generation\)? as (u\d+|usize)|generation\.(try_)?into\(\)|from\([a-z_.]*generation\)", t3):
+            err("%s: a generation is converted between integer types; the counter's effective width is not what the field types say" % rel3)
+    return slot_bits, id_bits, start, step
+
+
 def lean_bool(b):
     return "true" if b else "false"
 
@@ -403,6 +442,7 @@ def main():
     lits, calls, asserts = world_ctor_graph(a.repo)
     bnew, bunsafe, clhead, clcmp, clrec, clnull = batch_ctor(a.repo)
     ains, arec = assert_nodup(a.repo)
+    gen_slot, gen_id, gen_start, gen_step = generation_counter(a.repo)
 
     L = []
     L.append("/- @generated by translator/translate.py from /repo/src — do not edit; regenerated on every check -/")
@@ -448,6 +488,8 @@ def main():
     L.append("def assertNoDupShape : Bool × Bool := (%s, %s)" % (lean_bool(ains), lean_bool(arec)))
     L.append("/-- src/entities/mod.rs + sealed/length.rs: (Batch::new asserts check_len, new_unchecked is unsafe, check_len compares against the first column, check_len_against compares, recurses, Null is true) -/")
     L.append("def batchShape : List Bool := [%s]" % ", ".join(lean_bool(x) for x in (bnew, bunsafe, clhead, clcmp, clrec, clnull)))
+    L.append("/-- src/entity/allocator/slot.rs + src/entity/identifier/mod.rs: (bits of Slot.generation, bits of Identifier.generation, value in Slot::new, n of `wrapping_add(n)` in activate_unchecked) -/")
+    L.append("def genCounter : Nat × Nat × Nat × Nat := (%d, %d, %d, %d)" % (gen_slot, gen_id, gen_start, gen_step))
     L.append("")
     L.append("end Brood.Generated")
     text = "\n".join(L) + "\n"
